@@ -16,7 +16,7 @@ EXPLANATION = (
     'return); diff does not write the set. D1 role routing over six hops: '
     'diff().0 (modifications) reaches only fetch_docs + MultiSet and diff().1 (removals) only Del / MultiDel — through on_diff, '
     'get_keyspace_diff\'s struct fields, repair_members\' arguments, begin_keyspace_sync\'s parameters and the two application tasks (both '
-    'lists have the same type, so the compiler accepts any swap). A the actor applies every entry of a batch it is handed (C02\'s handler obligations re-evaluated: nothing is dropped between the gate and storage, the set is folded for exactly what storage wrote). D3.SEM the poller interpreted over three polling rounds against two peers: every keyspace a peer lists whose change stamp differs from the one recorded at that peer\'s last successful exchange of it has its difference computed against that peer and is exchanged with it. D5.SEM the progress tracker / watcher pair interpreted (done is what the task set on its copy, expired a timeout without progress). D4 source-id discipline (every live-path message carries the ordered-stream source id, every repair-path message the repair source id; = C01.S1). NOT decided: "applying the difference leaves nothing further to fetch" '
+    'lists have the same type, so the compiler accepts any swap). A the actor applies every entry of a batch it is handed (C02\'s handler obligations re-evaluated: nothing is dropped between the gate and storage, the set is folded for exactly what storage wrote). D3.SEM the poller interpreted over three polling rounds against two peers: every keyspace a peer lists whose change stamp differs from the one recorded at that peer\'s last successful exchange of it has its difference computed against that peer and is exchanged with it. D5.SEM the progress tracker / watcher pair interpreted (done is what the task set on its copy, expired a timeout without progress). D6 the GetState handler reads the keyspace change stamp before it takes the snapshot (= C01.S6). D4 source-id discipline (every live-path message carries the ordered-stream source id, every repair-path message the repair source id; = C01.S1). NOT decided: "applying the difference leaves nothing further to fetch" '
     'and the symmetric-exchange statement (consequences over all reachable set pairs).')
 ASSUMPTIONS = ['derived Ord on HLCTimestamp (C04.T1)']
 
@@ -460,6 +460,9 @@ def check(ctx):
     # again after every exchange (round 6, C05f)
     import c01
     c01.check_S1(ctx, facts, CallGraph(facts), rule='C05.D4')
+    # D6: the state a replica diffs against and the stamp it records as synchronised come from one GetState reply: the stamp is read
+    # before the snapshot (= C01.S6; round 7, C05g — the third independent rediscovery of that reordering)
+    c01.check_S6(ctx, facts, rule='C05.D6')
     # A: the keyspace actor applies what it is handed (keyspace/actor.rs is one of C05's anchors): the C02 handler
     #    obligations (write-then-fold, record = what storage gets, every region folds) re-evaluated under C05.A
     import c02
